@@ -27,6 +27,7 @@ def tree_stages(ctx):
     results = parallel(lambda n: run_tlc_config(n, emit=True), names)
     for n, r in zip(names, results):
         stages.stage_graph(ctx, n, result=r)
+    stages.stage_graph(ctx, "Share", result=run_tlc_config("Share", emit=True, constraints=["Depth3"]))
     if ctx.quick():
         stages.stage_mc(ctx, "TreeQ")
         stages.stage_sim(ctx, "Tree", num=300, depth=30)
@@ -247,6 +248,7 @@ def p_bytes(ctx):
     for n, r in zip(names, results):
         stages.stage_graph_lookups(ctx, n, result=r, per_step=6, always_blocks=True,
                                    bases=(0, core.BASES["2^64-40"]))
+    stages.stage_graph(ctx, "Share", result=run_tlc_config("Share", emit=True, constraints=["Depth3"]))   # two intervals, one buffer
     from . import driver
     driver.stage_traces(ctx, "TraceData", n_traces=30 if ctx.quick() else 300, length=60 if ctx.quick() else 100)
     return "model_checking", RULE_LOOKUP
